@@ -107,6 +107,9 @@ def run(prop, tier, seed, replay):
             for ci in range(n_cases):
                 B = rng.choice([1, 2, 3, 4, 6])
                 lo = rng.choice([0.0, 0.01, 0.1, 0.25])
+                if ci % 7 == 2:
+                    lo = [2.0, 3.5, 1.9][(ci // 7) % 3]        # high-redshift binnings: edges at and above 2 (their ulp is 4e-16 and more)
+                    ck.count("stratum=edges-above-2")
                 widths = [rng.choice([0.05, 0.1, 0.125, 0.3]) for _ in range(B)]
                 edges = np.concatenate([[lo], lo + np.cumsum(widths)])
                 if ci % 4 == 3:
